@@ -5710,6 +5710,12 @@ class PyCdlib:
                               rr_symlink_name if rr_symlink_name is not None else '',
                               joliet_path, udf_symlink_path, False)
 
+        # Generate the bytearray representing the UDF symlink; a target that
+        # cannot be represented is refused here, before anything is changed.
+        symlink_bytearray = bytearray()
+        if udf_target is not None:
+            symlink_bytearray = udfmod.symlink_to_bytes(udf_target)
+
         # Checks complete, we can go on to make the symlink.
 
         num_bytes_to_add = 0
@@ -5754,9 +5760,6 @@ class PyCdlib:
             file_ident.new(False, False, udf_name, udf_parent)
             num_new_extents = udf_parent.add_file_ident_desc(file_ident, self.logical_block_size)
             num_bytes_to_add += num_new_extents * self.logical_block_size
-
-            # Generate the bytearry representing the symlink.
-            symlink_bytearray = udfmod.symlink_to_bytes(udf_target)
 
             file_entry = udfmod.UDFFileEntry()
             file_entry.new(len(symlink_bytearray), 'symlink', udf_parent,
